@@ -356,11 +356,19 @@ func (f *file) ReadDir(n int) ([]hackpadfs.DirEntry, error) {
 	if err != nil {
 		return nil, &hackpadfs.PathError{Op: "readdir", Path: f.path, Err: err}
 	}
-	start, end := f.offset, f.offset+int64(n)
-	if n <= 0 {
-		start, end = 0, int64(len(dirNames))
-	} else if end > int64(len(dirNames)) {
-		end = int64(len(dirNames))
+	total := int64(len(dirNames))
+	start := f.offset
+	if start > total {
+		start = total
+	}
+	end := total
+	if n > 0 {
+		if start == total {
+			return nil, io.EOF
+		}
+		if int64(n) < total-start {
+			end = start + int64(n)
+		}
 	}
 	offsetAdd := end - start
 
@@ -372,7 +380,7 @@ func (f *file) ReadDir(n int) ([]hackpadfs.DirEntry, error) {
 		}
 		entries = append(entries, entry)
 	}
-	f.offset += offsetAdd
+	f.offset = start + offsetAdd
 	return entries, nil
 }
 
